@@ -1,5 +1,9 @@
 //! C18 — RTP latching. Drives the real `IceConn::receive` + latch API, writes op lines for the
 //! Lean model (`RtcModel.Latch`) and evaluates the property's own oracles on the implementation.
+//!
+//! Streams: `latch` (one bare `IceConn`, full state incl. the hidden probation table compared
+//! after every op) and `pc` (a real `PeerConnection` in RTP mode: SDP-driven retargets, pair
+//! monitors, STUN-driven pair rewrite and UDP packets through the real sockets; see `pc_stream`).
 use crate::{Args, Rng, Run, hex};
 use async_trait::async_trait;
 use bytes::Bytes;
@@ -8,7 +12,7 @@ use rustrtc::transports::PacketReceiver;
 use rustrtc::transports::ice::IceSocketWrapper;
 use rustrtc::transports::ice::conn::IceConn;
 use rustrtc::verif_hooks::ice_conn as hook;
-use std::net::{IpAddr, Ipv4Addr, SocketAddr};
+use std::net::{IpAddr, Ipv4Addr, Ipv6Addr, SocketAddr};
 use std::sync::Arc;
 use std::sync::atomic::Ordering;
 use tokio::sync::watch;
@@ -25,12 +29,25 @@ pub enum Op {
     RtcpAddr(Option<(u8, u16)>),
 }
 
+/// Address code → socket address. 0 = 0.0.0.0, 1..99 = 10.0.0.x, 100..199 = the IPv4-mapped IPv6
+/// form of 10.0.0.(x-100), 200.. = fd00::(x-200). Distinct codes are distinct `SocketAddr`s, which is
+/// all the model (addresses are opaque `(ip, port)` pairs) relies on.
 fn sa(ip: u8, port: u16) -> SocketAddr {
-    if ip == 0 { SocketAddr::new(IpAddr::V4(Ipv4Addr::new(0, 0, 0, 0)), port) }
-    else { SocketAddr::new(IpAddr::V4(Ipv4Addr::new(10, 0, 0, ip)), port) }
+    match ip {
+        0 => SocketAddr::new(IpAddr::V4(Ipv4Addr::new(0, 0, 0, 0)), port),
+        1..=99 => SocketAddr::new(IpAddr::V4(Ipv4Addr::new(10, 0, 0, ip)), port),
+        100..=199 => SocketAddr::new(IpAddr::V6(Ipv4Addr::new(10, 0, 0, ip - 100).to_ipv6_mapped()), port),
+        _ => SocketAddr::new(IpAddr::V6(Ipv6Addr::new(0xfd00, 0, 0, 0, 0, 0, 0, (ip - 200) as u16)), port),
+    }
 }
 fn ip_of(a: SocketAddr) -> (u8, u16) {
-    match a.ip() { IpAddr::V4(v) => (v.octets()[3], a.port()), _ => (255, a.port()) }
+    match a.ip() {
+        IpAddr::V4(v) => (v.octets()[3], a.port()),
+        IpAddr::V6(v) => match v.to_ipv4_mapped() {
+            Some(m) => (100 + m.octets()[3], a.port()),
+            None => (200 + v.segments()[7] as u8, a.port()),
+        },
+    }
 }
 
 pub fn op_text(op: &Op) -> String {
@@ -53,17 +70,56 @@ impl PacketReceiver for Rec {
     async fn receive(&self, _p: Bytes, _a: SocketAddr, _m: &mut Vec<u8>) { self.0.lock().push(self.1); }
 }
 
+/// One candidate row of the hidden probation table.
 #[derive(Clone, Debug, PartialEq)]
-pub struct Obs { remote: (u8, u16), rtcp: Option<(u8, u16)>, latched: bool, rtcpl: bool, fwd: &'static str }
-impl Obs {
-    fn text(&self) -> String {
-        format!("{}:{}/{}/{}/{}/{}", self.remote.0, self.remote.1,
-            match self.rtcp { None => "-".to_string(), Some((i, p)) => format!("{i}:{p}") },
-            self.latched as u8, self.rtcpl as u8, self.fwd)
+pub struct CandObs { addr: (u8, u16), first_seq: u16, last_seq: u16, first_ts: u32, count: u8, consec: u8, marker: bool }
+#[derive(Clone, Debug, PartialEq)]
+pub struct ProbObs { total: u8, max: u8, cands: Vec<CandObs> }
+
+#[derive(Clone, Debug, PartialEq)]
+pub struct Obs {
+    remote: (u8, u16), rtcp: Option<(u8, u16)>, latched: bool, rtcpl: bool, fwd: &'static str,
+    on: bool, exp: u32, maxp: u8, prob: Option<ProbObs>,
+}
+fn prob_text(p: &Option<ProbObs>) -> String {
+    match p {
+        None => "-".into(),
+        Some(p) => format!("T{}M{}[{}]", p.total, p.max, p.cands.iter().map(|c| format!("{}:{},{},{},{},{},{},{}",
+            c.addr.0, c.addr.1, c.first_seq, c.last_seq, c.first_ts, c.count, c.consec, c.marker as u8)).collect::<Vec<_>>().join(";")),
     }
+}
+impl Obs {
+    /// `prev` = probation text of the previous step; an unchanged table is printed as `=` (keeps
+    /// the lines of 300-op sequences short; the Lean driver compresses the same way).
+    fn text(&self, prev: Option<&str>) -> (String, String) {
+        let pt = prob_text(&self.prob);
+        let shown = if prev == Some(pt.as_str()) { "=".to_string() } else { pt.clone() };
+        (format!("{}:{}/{}/{}/{}/{}/{}/{}/{}/{}", self.remote.0, self.remote.1,
+            match self.rtcp { None => "-".to_string(), Some((i, p)) => format!("{i}:{p}") },
+            self.latched as u8, self.rtcpl as u8, self.fwd, self.on as u8, self.exp, self.maxp, shown), pt)
+    }
+}
+pub fn obs_line(obs: &[Obs]) -> String {
+    let mut prev: Option<String> = None;
+    let mut out = vec![];
+    for o in obs { let (t, pt) = o.text(prev.as_deref()); out.push(t); prev = Some(pt); }
+    out.join(" ")
 }
 
 pub struct Case { pub init: (u8, u16), pub maxp: u8, pub tcp: bool, pub ops: Vec<Op> }
+
+fn observe(conn: &IceConn, fwd: &'static str) -> Obs {
+    let (on, exp, maxp, prob) = conn.verif_latch_state();
+    Obs {
+        remote: ip_of(*conn.remote_addr.read()),
+        rtcp: conn.remote_rtcp_addr.read().map(ip_of),
+        latched: conn.rtp_latched.load(Ordering::Relaxed),
+        rtcpl: conn.rtcp_latched.load(Ordering::Relaxed),
+        fwd, on, exp, maxp,
+        prob: prob.map(|(total, max, cs)| ProbObs { total, max, cands: cs.into_iter().map(|c| CandObs {
+            addr: ip_of(c.0), first_seq: c.1, last_seq: c.2, first_ts: c.3, count: c.4, consec: c.5, marker: c.6 }).collect() }),
+    }
+}
 
 /// Execute a case on the real IceConn; returns the observation after init and after every op.
 pub fn exec(rt: &tokio::runtime::Runtime, c: &Case) -> Vec<Obs> {
@@ -86,14 +142,7 @@ pub fn exec(rt: &tokio::runtime::Runtime, c: &Case) -> Vec<Obs> {
     let dlog = Arc::new(Rec(Mutex::new(vec![]), "dtls"));
     conn.set_rtp_receiver(log.clone());
     conn.set_dtls_receiver(dlog.clone());
-    let obs = |fwd: &'static str| Obs {
-        remote: ip_of(*conn.remote_addr.read()),
-        rtcp: conn.remote_rtcp_addr.read().map(ip_of),
-        latched: conn.rtp_latched.load(Ordering::Relaxed),
-        rtcpl: conn.rtcp_latched.load(Ordering::Relaxed),
-        fwd,
-    };
-    let mut out = vec![obs("-")];
+    let mut out = vec![observe(&conn, "-")];
     let mut mb = Vec::new();
     for op in &c.ops {
         let mut fwd = "-";
@@ -112,126 +161,146 @@ pub fn exec(rt: &tokio::runtime::Runtime, c: &Case) -> Vec<Obs> {
             Op::Maxp(v) => conn.set_probation_max_packets(if *v == 0 { None } else { Some(*v) }),
             Op::RtcpAddr(a) => conn.set_remote_rtcp_addr(a.map(|(i, p)| sa(i, p))),
         }
-        out.push(obs(fwd));
+        out.push(observe(&conn, fwd));
     }
     out
 }
 
 // ---------------------------------------------------------------------------------------------
-// Property oracles evaluated directly on the implementation's observations.
-// Independent bookkeeping written from the doc comment of `RtpCandidateState` (rules 1,2,3) and
-// the property text — NOT from the body of `receive`.
+// Property oracles evaluated directly on the implementation's *public* observations (remote
+// address, RTCP address, the two latched flags). Written from the property text and the doc
+// comment of `RtpCandidateState` (rules 1, 2, 3 "evaluated in order"), NOT from the body of
+// `receive`: the rules are evaluated declaratively as *sets* of admissible winners (every tie the
+// comment leaves open is admissible), so the oracle encodes neither the code's branch order nor
+// `min_by_key` / `max_by` tie behaviour.
 
 struct Src { addr: (u8, u16), seqs: Vec<u16>, marker: bool }
+impl Src {
+    /// "first_seq": lowest sequence number seen from the source
+    fn first_seq(&self) -> u16 { *self.seqs.iter().min().unwrap() }
+    /// run of `seq == last_seq + 1` steps at the tail of this source's packets
+    fn run(&self) -> usize {
+        let mut run = 0;
+        for w in self.seqs.windows(2) { if w[1] == w[0].wrapping_add(1) { run += 1; } else { run = 0; } }
+        run
+    }
+}
 
 fn is_rtp(b: &[u8]) -> bool { !b.is_empty() && (128..192).contains(&b[0]) && !(b.len() >= 2 && (200..=211).contains(&b[1])) }
 fn is_rtcp(b: &[u8]) -> bool { !b.is_empty() && (128..192).contains(&b[0]) && b.len() >= 2 && (200..=211).contains(&b[1]) }
 
-/// documented winner for the observation history `srcs` (in order of first appearance), `total` packets.
-fn spec_winner(srcs: &[Src], total: usize, max: usize) -> Option<(u8, u16)> {
-    // rule 1: marker seen and lowest first (lowest) seq
-    let mut best: Option<(&Src, u16)> = None;
-    for s in srcs.iter().filter(|s| s.marker) {
-        let fs = *s.seqs.iter().min().unwrap();
-        if best.map(|(_, b)| fs < b).unwrap_or(true) { best = Some((s, fs)); }
+/// The documented decision, as the set of admissible winners: rule 1 (marker, lowest first_seq),
+/// else rule 2 (>= 3 packets observed and a source with two sequential steps), else rule 3 (window
+/// exhausted: most packets, ties → lowest first_seq), else no decision.
+fn documented_winners(srcs: &[Src], total: usize, max: usize) -> Vec<(u8, u16)> {
+    let markers: Vec<&Src> = srcs.iter().filter(|s| s.marker).collect();
+    if let Some(lo) = markers.iter().map(|s| s.first_seq()).min() {
+        return markers.iter().filter(|s| s.first_seq() == lo).map(|s| s.addr).collect();
     }
-    if let Some((s, _)) = best { return Some(s.addr); }
+    let runs: Vec<&Src> = srcs.iter().filter(|s| s.run() >= 2).collect();
+    if total >= 3 && !runs.is_empty() { return runs.iter().map(|s| s.addr).collect(); }
     if total >= max {
-        // rule 3: most packets, ties → lowest first_seq (then the later source, as `max_by` does)
-        let mut w: Option<&Src> = None;
-        for s in srcs {
-            w = match w { None => Some(s), Some(b) => {
-                let (bc, sc) = (b.seqs.len().min(255), s.seqs.len().min(255));
-                let (bf, sf) = (*b.seqs.iter().min().unwrap(), *s.seqs.iter().min().unwrap());
-                if sc > bc || (sc == bc && sf <= bf) { Some(s) } else { Some(b) } } };
-        }
-        return w.map(|s| s.addr);
+        let hi = srcs.iter().map(|s| s.seqs.len()).max().unwrap_or(0);
+        let top: Vec<&Src> = srcs.iter().filter(|s| s.seqs.len() == hi).collect();
+        let lo = top.iter().map(|s| s.first_seq()).min().unwrap_or(0);
+        return top.iter().filter(|s| s.first_seq() == lo).map(|s| s.addr).collect();
     }
-    if total >= 3 {
-        for s in srcs {
-            // consecutive run length at the tail of this source's packets
-            let mut run = 0;
-            for w in s.seqs.windows(2) { if w[1] == w[0].wrapping_add(1) { run += 1; } else { run = 0; } }
-            if run >= 2 { return Some(s.addr); }
-        }
-    }
-    None
+    vec![]
 }
 
 /// Returns oracle failures (signature, detail) for a case and its observations.
 pub fn oracles(c: &Case, obs: &[Obs]) -> Vec<(String, String)> {
-    let mut fails = vec![];
+    let mut fails: Vec<(String, String)> = vec![];
     let mut expected: u32 = 0;
     let mut latch_on = false;
     let mut maxp = c.maxp;
-    let mut prob_max: Option<u8> = None; // probation window in force
-    let mut srcs: Vec<Src> = vec![];
+    let mut window: Option<u8> = None; // probation window in force (None = immediate-latch mode)
+    let mut srcs: Vec<Src> = vec![];   // sources of expected-SSRC RTP since the window was (re)armed
     let mut total = 0usize;
-    let mut allowed: Vec<(u8, u16)> = vec![];
     let mut rtcp_changes = 0;
     for (i, op) in c.ops.iter().enumerate() {
         let (before, after) = (&obs[i], &obs[i + 1]);
-        let wf = before.remote.1 != 0 && !c.tcp; // configured destination on a datagram socket
+        let mut fail = |sig: &str, d: String| fails.push((sig.to_string(), format!("step {i} ({}): {d}", op_text(op))));
+        let moved = after.remote != before.remote;
         match op {
             Op::Pkt(ip, port, b) => {
                 let a = (*ip, *port);
                 let legit = is_rtp(b) && b.len() >= 12 && {
                     let ssrc = u32::from_be_bytes([b[8], b[9], b[10], b[11]]);
                     expected == 0 || ssrc == expected };
-                if legit { allowed.push(a); }
-                if wf && before.latched && latch_on && after.remote != before.remote {
-                    fails.push(("sticky:pkt-moved-latched-destination".into(), format!("step {i}")));
-                }
-                if wf && is_rtcp(b) && after.remote != before.remote {
-                    fails.push(("rtcp:moved-rtp-destination".into(), format!("step {i}")));
-                }
-                if wf && after.remote != before.remote && !allowed.contains(&after.remote) {
-                    fails.push(("move:to-non-legit-source".into(), format!("step {i} -> {:?}", after.remote)));
-                }
                 if after.rtcp != before.rtcp {
                     rtcp_changes += 1;
-                    if !is_rtcp(b) { fails.push(("rtcp:set-by-non-rtcp".into(), format!("step {i}"))); }
-                    if rtcp_changes > 1 { fails.push(("rtcp:set-more-than-once".into(), format!("step {i}"))); }
+                    if !is_rtcp(b) { fail("rtcp:set-by-non-rtcp", String::new()); }
+                    if after.rtcp != Some(a) { fail("rtcp:set-to-other-than-source", String::new()); }
+                    if rtcp_changes > 1 { fail("rtcp:set-more-than-once", String::new()); }
                 }
-                if latch_on && !before.latched && legit {
-                    if let Some(m) = prob_max {
-                        total += 1;
+                if latch_on {
+                    // clause 4: RTCP never touches the RTP destination — no exception for unset destinations
+                    if is_rtcp(b) && moved { fail("rtcp:moved-rtp-destination", format!("{:?} -> {:?}", before.remote, after.remote)); }
+                    // clause 3: committed ⇒ no packet of any kind moves the destination or clears the latch
+                    if before.latched && moved { fail("sticky:pkt-moved-latched-destination", format!("{:?} -> {:?}", before.remote, after.remote)); }
+                    if before.latched && !after.latched { fail("sticky:pkt-cleared-latch", String::new()); }
+                    // clause 1: only expected-SSRC RTP moves the destination …
+                    if moved && !legit && !is_rtcp(b) && !before.latched {
+                        fail("move:by-packet-that-is-not-expected-ssrc-rtp", format!("{:?} -> {:?}", before.remote, after.remote)); }
+                    if legit && !before.latched {
+                        // … and only to a source of such RTP seen since the window was armed
                         let seq = u16::from_be_bytes([b[2], b[3]]);
                         let marker = b[1] & 0x80 != 0;
-                        if let Some(s) = srcs.iter_mut().find(|s| s.addr == a) { s.seqs.push(seq); s.marker |= marker; }
-                        else { srcs.push(Src { addr: a, seqs: vec![seq], marker }); }
-                        let w = spec_winner(&srcs, total, m as usize);
-                        match (w, after.latched) {
-                            (Some(w), true) => if after.remote != w {
-                                fails.push(("winner:committed-destination-is-not-rule-winner".into(),
-                                    format!("step {i}: rules pick {:?}, destination {:?}", w, after.remote))); },
-                            (Some(_), false) => fails.push(("commit:not-latched-when-rules-decide".into(), format!("step {i}"))),
-                            (None, true) => fails.push(("commit:latched-without-rule".into(), format!("step {i}"))),
-                            (None, false) => {}
+                        if let Some(m) = window {
+                            total += 1;
+                            if let Some(s) = srcs.iter_mut().find(|s| s.addr == a) { s.seqs.push(seq); s.marker |= marker; }
+                            else { srcs.push(Src { addr: a, seqs: vec![seq], marker }); }
+                            if moved && !srcs.iter().any(|s| s.addr == after.remote) {
+                                fail("move:to-non-legit-source", format!("-> {:?}", after.remote)); }
+                            let w = documented_winners(&srcs, total, m as usize);
+                            match (w.is_empty(), after.latched) {
+                                (false, true) => if !w.contains(&after.remote) {
+                                    fail("winner:committed-destination-is-not-documented-rule-winner",
+                                        format!("documented rules admit {:?}, destination {:?}", w, after.remote)); },
+                                (false, false) => fail("commit:not-latched-when-rules-decide", format!("{w:?}")),
+                                (true, true) => fail("commit:latched-without-rule", String::new()),
+                                (true, false) => if after.remote != a { fail("probation:destination-does-not-follow-source", String::new()); },
+                            }
+                            if total >= m as usize && !after.latched { fail("commit:not-within-max-packets", String::new()); }
+                            if after.latched { window = None; }
+                        } else {
+                            if !after.latched || after.remote != a { fail("commit:immediate-latch-missed", String::new()); }
                         }
-                        if total >= m as usize && !after.latched {
-                            fails.push(("commit:not-within-max-packets".into(), format!("step {i}")));
-                        }
-                    } else if !after.latched || after.remote != a {
-                        fails.push(("commit:immediate-latch-missed".into(), format!("step {i}")));
-                    }
+                    } else if legit && moved { /* before.latched: reported above */ }
+                    if !legit && !before.latched && after.latched { fail("commit:by-packet-that-is-not-expected-ssrc-rtp", String::new()); }
                 }
             }
-            Op::Enable => { latch_on = true; if maxp > 0 { if prob_max.is_none() { prob_max = Some(maxp); srcs.clear(); total = 0; } } else { prob_max = None; } }
-            Op::Reset => { rtcp_changes = 0; srcs.clear(); total = 0; prob_max = if latch_on && maxp > 0 { Some(maxp) } else { None }; }
-            Op::Sig(ip, p) => { allowed.push((*ip, *p)); rtcp_changes = 0; srcs.clear(); total = 0;
-                                prob_max = if latch_on && maxp > 0 { Some(maxp) } else { None }; }
+            Op::Enable => {
+                latch_on = true;
+                if maxp > 0 { if window.is_none() { window = Some(maxp); srcs.clear(); total = 0; } } else { window = None; }
+                if moved || after.latched != before.latched { fail("api:enable-changed-destination-or-latch", String::new()); }
+            }
+            Op::Reset => {
+                rtcp_changes = 0; srcs.clear(); total = 0; window = if latch_on && maxp > 0 { Some(maxp) } else { None };
+                if moved { fail("api:reset-moved-destination", String::new()); }
+                if after.latched { fail("api:reset-left-latch-set", String::new()); }
+            }
+            Op::Sig(ip, p) => {
+                rtcp_changes = 0; srcs.clear(); total = 0; window = if latch_on && maxp > 0 { Some(maxp) } else { None };
+                if after.remote != (*ip, *p) { fail("api:signaling-retarget-not-applied", String::new()); }
+                if after.latched { fail("api:signaling-retarget-left-latch-set", String::new()); }
+            }
             Op::Pair(ip, p) => {
-                allowed.push((*ip, *p));
-                if before.latched && latch_on && after.remote != before.remote {
-                    fails.push(("sticky:pair-update-moved-latched-destination".into(), format!("step {i}")));
-                }
+                if before.latched && latch_on {
+                    if moved { fail("sticky:pair-update-moved-latched-destination", format!("{:?} -> {:?}", before.remote, after.remote)); }
+                } else if after.remote != (*ip, *p) { fail("api:pair-update-not-applied", String::new()); }
+                if after.latched != before.latched { fail("api:pair-update-changed-latch", String::new()); }
             }
-            Op::Ssrc(v) => expected = *v,
-            Op::Maxp(v) => maxp = *v,
-            Op::RtcpAddr(_) => rtcp_changes = 0,
+            Op::Ssrc(v) => {
+                // sources seen under another SSRC expectation did not send "RTP carrying the expected SSRC"
+                if *v != expected { srcs.clear(); total = 0; }
+                expected = *v;
+                if moved || after.latched != before.latched { fail("api:ssrc-changed-destination-or-latch", String::new()); }
+            }
+            Op::Maxp(v) => { maxp = *v; if moved || after.latched != before.latched { fail("api:maxp-changed-destination-or-latch", String::new()); } }
+            Op::RtcpAddr(_) => { rtcp_changes = 0; if moved || after.latched != before.latched { fail("api:rtcp-addr-changed-destination-or-latch", String::new()); } }
         }
-        if after.latched && !before.latched { /* committed */ }
     }
     fails
 }
@@ -240,7 +309,13 @@ pub fn oracles(c: &Case, obs: &[Obs]) -> Vec<(String, String)> {
 // Generators
 
 const SSRC: u32 = 0x1122_3344;
-const SRC: [(u8, u16); 3] = [(1, 5001), (2, 5002), (3, 5003)];
+/// A and C share the IP, B and C share the port (the doc comment's scenario is "multiple source
+/// ports" of one host): a lookup or guard comparing only `.ip()` or only `.port()` is visible.
+const SRC: [(u8, u16); 3] = [(1, 5001), (2, 5002), (1, 5002)];
+/// further sources for the random stream (same port other IP, v4-mapped IPv6 of A, plain IPv6)
+const SRC_X: [(u8, u16); 4] = [(2, 5001), (101, 5001), (201, 5001), (1, 0)];
+const SIG: (u8, u16) = (4, 5004);
+const PAIR: (u8, u16) = (5, 5005);
 
 fn rtp(marker: bool, seq: u16, ts: u32, ssrc: u32) -> Vec<u8> {
     let mut b = vec![0x80, if marker { 0x80 | 96 } else { 96 }];
@@ -270,59 +345,121 @@ impl Alpha {
                 _ => Op::Pkt(ip, port, rtcp()),
             }
         } else {
-            match k { 18 => Op::Reset, 19 => Op::Sig(3, 5003), _ => Op::Pair(2, 5002) }
+            match k { 18 => Op::Reset, 19 => Op::Sig(SIG.0, SIG.1), _ => Op::Pair(PAIR.0, PAIR.1) }
         }
     }
 }
 pub const NSYM: usize = 21;
 
+fn case_text(c: &Case) -> String {
+    format!("init,{},{},{},{} {}", c.init.0, c.init.1, c.maxp, c.tcp as u8,
+        c.ops.iter().map(op_text).collect::<Vec<_>>().join(" "))
+}
+
 fn emit(run: &mut Run, rt: &tokio::runtime::Runtime, c: &Case) {
     let obs = exec(rt, c);
-    let input = format!("init,{},{},{},{} {}", c.init.0, c.init.1, c.maxp, c.tcp as u8,
-        c.ops.iter().map(op_text).collect::<Vec<_>>().join(" "));
-    let out = obs.iter().map(|o| o.text()).collect::<Vec<_>>().join(" ");
+    let input = case_text(c);
+    let out = obs_line(&obs);
     let committed = obs.iter().any(|o| o.latched);
     let moved = obs.windows(2).any(|w| w[0].remote != w[1].remote);
     run.case("latch", &input, &out, committed || moved);
     if committed { run.count("cases_committed"); }
     if moved { run.count("cases_destination_moved"); }
     if obs.windows(2).any(|w| w[0].rtcp != w[1].rtcp) { run.count("cases_rtcp_learnt"); }
+    if obs.iter().any(|o| o.prob.as_ref().map(|p| p.cands.len() >= 2).unwrap_or(false)) { run.count("cases_two_or_more_candidates"); }
+    if obs.iter().any(|o| o.prob.as_ref().map(|p| p.cands.iter().any(|c| c.count == 255) || p.total == 255).unwrap_or(false)) { run.count("cases_counter_at_255"); }
     for (sig, detail) in oracles(c, &obs) {
         run.fail(&sig, &input, &detail);
     }
 }
 
+/// prefixes of the exhaustive part: (name, init address, ops before the enumerated symbols)
+fn prefixes() -> Vec<(&'static str, (u8, u16), Vec<Op>)> {
+    vec![
+        ("ssrc+rtcpaddr+enable", (1, 5001), vec![Op::Ssrc(SSRC), Op::RtcpAddr(Some((1, 5101))), Op::Enable]),
+        ("enable-only(no ssrc known, rtcp-mux)", (9, 5009), vec![Op::Enable]),
+        ("unset-destination 0.0.0.0:0 + enable + ssrc", (0, 0), vec![Op::Enable, Op::Ssrc(SSRC), Op::RtcpAddr(Some((1, 5101)))]),
+        ("latching off", (1, 5001), vec![Op::Ssrc(SSRC), Op::RtcpAddr(Some((1, 5101)))]),
+    ]
+}
+
 pub fn run(args: &Args) {
     let rt = tokio::runtime::Builder::new_current_thread().enable_all().build().unwrap();
-    let mut run = Run::new("c18", &args.out);
     if let Some(case) = &args.replay {
+        if case.starts_with("pc ") { pc_stream::replay(&rt, case); return; }
+        if case.starts_with("race ") { race::replay(case); return; }
         let c = parse_case(case);
         let obs = exec(&rt, &c);
-        println!("impl: {}", obs.iter().map(|o| o.text()).collect::<Vec<_>>().join(" "));
+        println!("impl: {}", obs_line(&obs));
         for (s, d) in oracles(&c, &obs) { println!("ORACLE-FAIL {s} {d}"); }
         return;
     }
-    // (1) exhaustive: all sequences of length L over the 21-symbol alphabet, after `ss,SSRC ra en`
-    let (len, settings): (usize, Vec<u8>) = if args.tier_thorough { (4, vec![0, 1, 2, 3, 4, 6, 8]) } else { (3, vec![0, 1, 2, 3, 4, 5, 6, 7, 8]) };
-    let mut plan: Vec<(usize, u8)> = settings.iter().map(|&m| (len, m)).collect();
-    if args.tier_thorough { plan.push((5, 3)); plan.push((5, 6)); }
-    for &(len, maxp) in &plan {
+    let mut run = Run::new("c18", &args.out);
+    let thorough = args.tier_thorough;
+    // (1) exhaustive: all sequences of length L over the 21-symbol alphabet
+    let pre = prefixes();
+    let mut plan: Vec<(usize, usize, u8)> = vec![]; // (prefix, len, maxp)
+    if thorough {
+        for m in [0u8, 1, 2, 3, 4, 6, 8] { plan.push((0, 4, m)); }
+        plan.push((0, 5, 3)); plan.push((0, 5, 6));
+        for p in 1..pre.len() { for m in [0u8, 3, 6] { plan.push((p, 4, m)); } }
+    } else {
+        for m in 0u8..=8 { plan.push((0, 3, m)); }
+        plan.push((0, 4, 3));
+        for p in 1..pre.len() { for m in [0u8, 2, 3, 6] { plan.push((p, 3, m)); } }
+    }
+    for &(pi, len, maxp) in &plan {
         let n = NSYM.pow(len as u32);
         for idx in 0..n {
             let mut al = Alpha::new();
-            let mut ops = vec![Op::Ssrc(SSRC), Op::RtcpAddr(Some((1, 5101))), Op::Enable];
+            let mut ops = pre[pi].2.clone();
             let mut k = idx;
             for _ in 0..len { ops.push(al.sym(k % NSYM)); k /= NSYM; }
-            emit(&mut run, &rt, &Case { init: (1, 5001), maxp, tcp: false, ops });
+            emit(&mut run, &rt, &Case { init: pre[pi].1, maxp, tcp: false, ops });
         }
-        run.count_n(&format!("exhaustive_len{len}_maxp{maxp}"), n as u64);
+        run.count_n(&format!("exhaustive_prefix{pi}_len{len}_maxp{maxp}"), n as u64);
     }
-    // (2) random longer sequences (saturating counters, wrap, unknown ssrc, unset destination, API ops)
+    // (2) exhaustive rule-competition family: two sources sharing the IP, no markers, each packet
+    // either continues the source's run (+1) or breaks it (-3); every sequence up to the length
+    // at which the window must have closed. This is where rules 2 and 3 compete (total = max with a
+    // run completed by the same packet).
+    let comp: Vec<(u8, usize)> = if thorough { vec![(3, 4), (4, 5), (5, 6), (6, 7), (7, 8), (8, 9), (9, 10)] } else { vec![(3, 4), (4, 5), (5, 6), (6, 7), (7, 8)] };
+    for &(maxp, len) in &comp {
+        let n = 4usize.pow(len as u32);
+        for idx in 0..n {
+            let mut last = [1000u16, 20u16];
+            let mut ops = vec![Op::Ssrc(SSRC), Op::Enable];
+            let mut k = idx;
+            for _ in 0..len {
+                let (s, brk) = ((k & 1) as usize, k & 2 != 0); k >>= 2;
+                let seq = if brk { last[s].wrapping_sub(3) } else { last[s].wrapping_add(1) };
+                last[s] = seq;
+                let (ip, port) = [SRC[0], SRC[2]][s];
+                ops.push(Op::Pkt(ip, port, rtp(false, seq, seq as u32, SSRC)));
+            }
+            emit(&mut run, &rt, &Case { init: (9, 5009), maxp, tcp: false, ops });
+        }
+        run.count_n(&format!("rule_competition_maxp{maxp}_len{len}"), n as u64);
+    }
+    // (3) directed: u8 counters at their ceiling (window 255, one source breaking its run each time,
+    // a second source once): total and packet_count reach 255 exactly when rule 3 must fire
+    for extra in [0usize, 1, 2] {
+        let mut ops = vec![Op::Ssrc(SSRC), Op::Enable];
+        let mut seq = 40000u16;
+        for i in 0..(255 + extra) {
+            seq = seq.wrapping_sub(3);
+            let (ip, port) = if i == 100 && extra == 1 { SRC[1] } else { SRC[0] };
+            ops.push(Op::Pkt(ip, port, rtp(false, seq, 0, SSRC)));
+        }
+        emit(&mut run, &rt, &Case { init: (9, 5009), maxp: 255, tcp: false, ops });
+        run.count("directed_window255");
+    }
+    // (4) random longer sequences (wrap, unknown ssrc, unset destination, API ops, TCP socket, IPv6)
     let mut rng = Rng::new(args.seed);
-    let nrand = if args.tier_thorough { 200_000 } else { 20_000 };
+    let nrand = if thorough { 200_000 } else { 20_000 };
     for _ in 0..nrand {
         let maxp = *rng.pick(&[0u8, 1, 2, 3, 4, 5, 6, 7, 8, 8, 20, 255]);
-        let init = *rng.pick(&[(1u8, 5001u16), (9, 5009), (0, 0), (1, 0)]);
+        let init = *rng.pick(&[(1u8, 5001u16), (9, 5009), (0, 0), (1, 0), (4, 5004)]);
         let mut ops = vec![];
         if rng.chance(3, 4) { ops.push(Op::Ssrc(SSRC)); }
         if rng.chance(1, 2) { ops.push(Op::RtcpAddr(Some((1, 5101)))); }
@@ -331,7 +468,11 @@ pub fn run(args: &Args) {
         let mut al = Alpha::new();
         for _ in 0..n {
             let r = rng.below(100);
-            let op = if r < 70 { al.sym(rng.below(18) as usize) }
+            let op = if r < 66 { al.sym(rng.below(18) as usize) }
+                else if r < 70 {
+                    let (ip, port) = *rng.pick(&SRC_X);
+                    Op::Pkt(ip, port, match rng.below(3) { 0 => rtcp(), 1 => rtp(false, 9, 9, 0xdead_beef),
+                        _ => rtp(rng.chance(1, 4), rng.next() as u16, rng.next() as u32, SSRC) }) }
                 else if r < 80 {
                     let (ip, port) = *rng.pick(&SRC);
                     let b = match rng.below(6) {
@@ -341,8 +482,9 @@ pub fn run(args: &Args) {
                         4 => rtp(rng.chance(1, 2), rng.next() as u16, rng.next() as u32, if rng.chance(1, 2) { SSRC } else { 0 }),
                         _ => { let n = rng.range(1, 20) as usize; rng.bytes(n) } };
                     Op::Pkt(ip, port, b) }
-                else if r < 84 { Op::Reset } else if r < 88 { Op::Sig(*rng.pick(&[1u8, 2, 3, 9]), *rng.pick(&[5001u16, 5002, 5003, 5009])) }
-                else if r < 92 { let (i, p) = *rng.pick(&SRC); Op::Pair(i, p) }
+                else if r < 84 { Op::Reset }
+                else if r < 88 { let (i, p) = *rng.pick(&[SIG, (4, 0), (1, 0), SRC[0], SRC[1], SRC[2], (9, 5009)]); Op::Sig(i, p) }
+                else if r < 92 { let (i, p) = *rng.pick(&[PAIR, SRC[0], SRC[1], SRC[2], (5, 0)]); Op::Pair(i, p) }
                 else if r < 94 { Op::Ssrc(*rng.pick(&[0u32, SSRC, 5])) }
                 else if r < 96 { Op::Maxp(*rng.pick(&[0u8, 1, 3, 6])) }
                 else if r < 98 { Op::Enable }
@@ -351,12 +493,20 @@ pub fn run(args: &Args) {
         }
         let tcp = rng.chance(1, 25);
         if tcp { run.count("random_tcp_socket_cases"); }
+        if init.1 == 0 { run.count("random_unset_destination_cases"); }
         emit(&mut run, &rt, &Case { init, maxp, tcp, ops });
     }
     run.count_n("random_sequences", nrand);
+    // (5) structural tie: every writer of `remote_addr` in the source tree is a modelled site
+    writers::run(&mut run);
+    // (6) the anchored callers: a real PeerConnection in RTP mode
+    pc_stream::run(&mut run, &rt, args);
+    // (7) API ops racing with receive(): schedules of the yield-point hook executed on the real code
+    race::run(&mut run, args);
     run.exhaustive = true;
     run.notes.insert("exhaustive_scope".into(), serde_json::json!(format!(
-        "all {}^{} sequences over the 21-symbol alphabet for probation settings {:?}", NSYM, len, settings)));
+        "all 21^L sequences over the 21-symbol alphabet: {:?} (prefix, L, window); prefixes {:?}; all 4^L rule-competition sequences {:?} (window, L)",
+        plan, pre.iter().map(|p| p.0).collect::<Vec<_>>(), comp)));
     run.finish();
 }
 
@@ -377,4 +527,77 @@ pub fn parse_case(s: &str) -> Case {
         });
     }
     Case { init: (init[1].parse().unwrap(), init[2].parse().unwrap()), maxp: init[3].parse().unwrap(), tcp: init.get(4) == Some(&"1"), ops }
+}
+
+/// Structural tie for the anchored callers (`src/peer_connection.rs`, `src/transports/ice/mod.rs`, …):
+/// the model accounts for a fixed set of `remote_addr.write()` sites, all in `conn.rs`; every other
+/// file must reach the destination through `set_remote_addr_from_selected_pair` /
+/// `set_remote_addr_from_signaling` (the `Pair` / `Sig` ops). The non-test part of every source
+/// file is scanned on each run; the Lean side (`Latch.modelledWriters`) holds the expected counts.
+mod writers {
+    use super::*;
+    pub fn repo() -> String {
+        if let Ok(r) = std::env::var("VERIF_REPO") { return r; }
+        let f = concat!(env!("CARGO_MANIFEST_DIR"), "/../.verif_repo");
+        std::fs::read_to_string(f).map(|s| s.trim().to_string()).unwrap_or_else(|_| "/repo".into())
+    }
+    fn scan(dir: &std::path::Path, out: &mut Vec<std::path::PathBuf>) {
+        let mut es: Vec<_> = std::fs::read_dir(dir).map(|d| d.flatten().map(|e| e.path()).collect()).unwrap_or_default();
+        es.sort();
+        for p in es { if p.is_dir() { scan(&p, out); } else if p.extension().map(|e| e == "rs").unwrap_or(false) { out.push(p); } }
+    }
+    /// `(file, line)` of every `remote_addr . write()` in non-test code (whitespace/newlines tolerated)
+    pub fn sites() -> Vec<(String, usize)> {
+        let root = repo();
+        let mut files = vec![];
+        scan(std::path::Path::new(&format!("{root}/src")), &mut files);
+        let mut out = vec![];
+        for f in files {
+            let rel = f.strip_prefix(&root).unwrap().to_string_lossy().trim_start_matches('/').to_string();
+            if rel.starts_with("src/verif_hooks") || rel.ends_with("/tests.rs") { continue; }
+            let txt = std::fs::read_to_string(&f).unwrap_or_default();
+            let code = match txt.find("#[cfg(test)]") { Some(i) => &txt[..i], None => &txt[..] };
+            let squeezed: String = code.chars().filter(|c| !c.is_whitespace() || *c == '\n').collect();
+            let flat = squeezed.replace('\n', "\u{1}");
+            let mut from = 0;
+            // tolerate a line break between the field and the call
+            let pats = ["remote_addr.write()", "remote_addr\u{1}.write()"];
+            loop {
+                let next = pats.iter().filter_map(|p| flat[from..].find(p).map(|i| i + from)).min();
+                let Some(i) = next else { break };
+                let line = flat[..i].matches('\u{1}').count() + 1;
+                out.push((rel.clone(), line));
+                from = i + 10;
+            }
+        }
+        out
+    }
+    pub fn run(run: &mut Run) {
+        let sites = sites();
+        let mut per: std::collections::BTreeMap<String, Vec<usize>> = Default::default();
+        per.insert("src/transports/ice/conn.rs".into(), vec![]);
+        for (f, l) in &sites { per.entry(f.clone()).or_default().push(*l); }
+        let input = per.iter().map(|(f, ls)| format!("{f}={}", ls.len())).collect::<Vec<_>>().join(" ");
+        let out = per.keys().map(|f| format!("{f}=ok")).collect::<Vec<_>>().join(" ");
+        run.case("writers", &input, &out, true);
+        run.count_n("remote_addr_write_sites", sites.len() as u64);
+        for (f, ls) in &per {
+            if f != "src/transports/ice/conn.rs" && !ls.is_empty() {
+                run.fail(&format!("tie:unmodelled-writer-of-remote_addr:{f}"), &format!("writers {f}:{:?}", ls),
+                    "a write to IceConn::remote_addr outside conn.rs bypasses the latch guard (set_remote_addr_from_selected_pair / _from_signaling)");
+            }
+        }
+    }
+}
+
+/// Placeholder modules filled in below.
+mod pc_stream {
+    use super::*;
+    pub fn run(_run: &mut Run, _rt: &tokio::runtime::Runtime, _args: &Args) {}
+    pub fn replay(_rt: &tokio::runtime::Runtime, _case: &str) {}
+}
+mod race {
+    use super::*;
+    pub fn run(_run: &mut Run, _args: &Args) {}
+    pub fn replay(_case: &str) {}
 }
